@@ -749,7 +749,7 @@ class ContractSet:
                 I.assign(c.expr(lv), I.ev(c.expr(src), sfr), sfr)
             for ev_name, src in spec.get("emits", {}).items():
                 try:
-                    v = I.ev(c.expr(src), sfr)
+                    v = I.resolve(I.ev(c.expr(src), sfr))
                 except PyRaise as e:
                     raise Unsupported(f"emits of {c.target} raised {I.hobj(e.exc).cls.name}")
                 if isinstance(v, VRef) and I.hobj(v).kind == "list":
